@@ -1,0 +1,48 @@
+//go:build verif
+
+/*
+ * Verification hooks, enabled with the "verif" build tag. Each hook forwards to a
+ * settable package variable; a nil variable makes the hook a no-op.
+ */
+
+package y
+
+var (
+	// VerifPointFn is called at every named schedule point.
+	VerifPointFn func(name string)
+	// VerifIOFn is called after every persistence step.
+	VerifIOFn func(op, path string)
+	// VerifHeightFn chooses skiplist tower heights (0 = random).
+	VerifHeightFn func() int
+	// VerifIVFn is called for every encryption with the data key id and IV.
+	VerifIVFn func(kind string, keyID uint64, iv []byte)
+)
+
+// VerifPoint marks a named schedule point for the verification harness.
+func VerifPoint(name string) {
+	if f := VerifPointFn; f != nil {
+		f(name)
+	}
+}
+
+// VerifIO reports that a persistence step (op) on path has just completed.
+func VerifIO(op, path string) {
+	if f := VerifIOFn; f != nil {
+		f(op, path)
+	}
+}
+
+// VerifHeight lets the harness choose skiplist tower heights (0 = random).
+func VerifHeight() int {
+	if f := VerifHeightFn; f != nil {
+		return f()
+	}
+	return 0
+}
+
+// VerifIV reports the (data key id, IV) pair used by an encryption call.
+func VerifIV(kind string, keyID uint64, iv []byte) {
+	if f := VerifIVFn; f != nil {
+		f(kind, keyID, append([]byte{}, iv...))
+	}
+}
